@@ -7,6 +7,7 @@ import (
 	"fmt"
 	"go/ast"
 	"go/parser"
+	"go/printer"
 	"go/token"
 	"go/types"
 	"os"
@@ -34,6 +35,7 @@ type Loaded struct {
 	GenSrc    string
 	funcsByName map[string]*ssa.Function
 	Opaque    map[string]bool
+	importer  types.Importer
 }
 
 func relFuncName(fn *ssa.Function) string {
@@ -114,6 +116,12 @@ func Load(repoDir, verifDir string) (*Loaded, error) {
 		}
 	})
 
+	L.importer = importerFunc(func(path string) (*types.Package, error) {
+		if p, ok := depTypes[path]; ok {
+			return p, nil
+		}
+		return nil, fmt.Errorf("import %q not loaded", path)
+	})
 	// generate clause functions against the first type-check
 	gen, err := generateClauses(L, root, cf)
 	if err != nil {
@@ -249,6 +257,9 @@ func findFuncSite(root *packages.Package, name string) (*funcSite, error) {
 	if strings.HasPrefix(name, "iface:") {
 		return findIfaceSite(root, name[6:])
 	}
+	if strings.HasPrefix(name, "ext:") {
+		return findExtSite(root, name[4:])
+	}
 	base := name
 	var anon []int
 	for {
@@ -337,6 +348,66 @@ func lookupTypeByShortName(root *packages.Package, tn string) types.Type {
 	return nil
 }
 
+// findExtSite: "pkg.Func" or "pkg.Func/DynType" or "(*pkg.T).Method"
+func findExtSite(root *packages.Package, name string) (*funcSite, error) {
+	if i := strings.Index(name, "/"); i >= 0 {
+		name = name[:i]
+	}
+	var sig *types.Signature
+	if strings.HasPrefix(name, "(") {
+		j := strings.Index(name, ").")
+		if j < 0 {
+			return nil, fmt.Errorf("bad external method name %q", name)
+		}
+		tn := strings.TrimPrefix(name[1:j], "*")
+		t := lookupTypeByShortName(root, tn)
+		if t == nil {
+			return nil, fmt.Errorf("external type %q not found", tn)
+		}
+		obj, _, _ := types.LookupFieldOrMethod(types.NewPointer(t), true, nil, name[j+2:])
+		f, ok := obj.(*types.Func)
+		if !ok {
+			return nil, fmt.Errorf("external method %q not found", name)
+		}
+		sig = f.Type().(*types.Signature)
+		site := &funcSite{sig: sig, extra: map[string]types.Type{"self": sig.Recv().Type()}}
+		addSigNames(site, sig)
+		return site, nil
+	}
+	i := strings.LastIndex(name, ".")
+	if i < 0 {
+		return nil, fmt.Errorf("bad external function name %q", name)
+	}
+	var found *types.Func
+	packages.Visit([]*packages.Package{root}, nil, func(p *packages.Package) {
+		if found == nil && p.Types != nil && (p.Types.Name() == name[:i] || p.Types.Path() == name[:i]) {
+			if o, ok := p.Types.Scope().Lookup(name[i+1:]).(*types.Func); ok {
+				found = o
+			}
+		}
+	})
+	if found == nil {
+		return nil, fmt.Errorf("external function %q not found", name)
+	}
+	sig = found.Type().(*types.Signature)
+	site := &funcSite{sig: sig, extra: map[string]types.Type{}}
+	addSigNames(site, sig)
+	return site, nil
+}
+
+func addSigNames(site *funcSite, sig *types.Signature) {
+	for p := 0; p < sig.Params().Len(); p++ {
+		if n := sig.Params().At(p).Name(); n != "" && n != "_" {
+			site.extra[n] = sig.Params().At(p).Type()
+		}
+	}
+	for p := 0; p < sig.Results().Len(); p++ {
+		if n := sig.Results().At(p).Name(); n != "" && n != "_" {
+			site.extra[n] = sig.Results().At(p).Type()
+		}
+	}
+}
+
 func findIfaceSite(root *packages.Package, name string) (*funcSite, error) {
 	i := strings.LastIndex(name, ".")
 	if i < 0 {
@@ -356,6 +427,7 @@ func findIfaceSite(root *packages.Package, name string) (*funcSite, error) {
 			sig := m.Type().(*types.Signature)
 			site := &funcSite{sig: sig, extra: map[string]types.Type{"self": t}}
 			for p := 0; p < sig.Params().Len(); p++ {
+				site.extra[fmt.Sprintf("arg%d", p)] = sig.Params().At(p).Type()
 				if n := sig.Params().At(p).Name(); n != "" && n != "_" {
 					site.extra[n] = sig.Params().At(p).Type()
 				}
@@ -486,6 +558,51 @@ func collectParams(expr ast.Expr, site *funcSite, scope *types.Scope, pkgScope *
 }
 
 
+// probeType type-checks an expression whose free names are bound by name
+// (interface / external contracts) by checking a throw-away function together
+// with the package.
+func probeType(L *Loaded, root *packages.Package, site *funcSite, e ast.Expr) types.Type {
+	g := &genCtx{imports: map[string]string{}}
+	var ps []string
+	names := make([]string, 0, len(site.extra))
+	for n := range site.extra {
+		names = append(names, n)
+	}
+	sort.Strings(names)
+	for _, n := range names {
+		ps = append(ps, n+" "+types.TypeString(site.extra[n], g.qual))
+	}
+	var b strings.Builder
+	b.WriteString("//go:build go1.18\n\npackage restful\n\n")
+	for p, n := range g.imports {
+		fmt.Fprintf(&b, "import %s %q\n", n, p)
+	}
+	var eb strings.Builder
+	printer.Fprint(&eb, token.NewFileSet(), e)
+	fmt.Fprintf(&b, "func verif_probe(%s) {\n\tverif_probe_sink(%s)\n}\nfunc verif_probe_sink[T any](x T) {}\n", strings.Join(ps, ", "), eb.String())
+	fset := root.Fset
+	pf, err := parser.ParseFile(fset, filepath.Join(L.RepoDir, "zz_verif_probe.go"), b.String(), 0)
+	if err != nil {
+		return nil
+	}
+	files := append(append([]*ast.File{}, root.Syntax...), pf)
+	info := &types.Info{Types: map[ast.Expr]types.TypeAndValue{}}
+	tc := &types.Config{Importer: L.importer, Error: func(error) {}, Sizes: root.TypesSizes}
+	tc.Check(pkgPath, fset, files, info)
+	var found types.Type
+	ast.Inspect(pf, func(n ast.Node) bool {
+		if c, ok := n.(*ast.CallExpr); ok {
+			if id, ok := c.Fun.(*ast.Ident); ok && id.Name == "verif_probe_sink" && len(c.Args) == 1 {
+				if tv, ok := info.Types[c.Args[0]]; ok {
+					found = tv.Type
+				}
+			}
+		}
+		return true
+	})
+	return found
+}
+
 func genModifies(L *Loaded, root *packages.Package, g *genCtx, site *funcSite, fname string, cl *Clause, n *int) error {
 	pkgScope := root.Types.Scope()
 	var pos token.Pos
@@ -514,11 +631,26 @@ func genModifies(L *Loaded, root *packages.Package, g *genCtx, site *funcSite, f
 			ms.kind = "elems"
 			exprText = item[6 : len(item)-1]
 		}
+		if strings.HasPrefix(item, "map ") {
+			ms.kind = "map"
+			exprText = strings.TrimSpace(item[4:])
+		}
+		if strings.HasPrefix(item, "cb(") && strings.HasSuffix(item, ")") {
+			ms.kind = "cb"
+			exprText = item[3 : len(item)-1]
+		}
+		if item == "headers" {
+			ms.kind = "headers"
+			continue
+		}
 		expr, err := parser.ParseExpr(exprText)
 		if err != nil {
 			return fmt.Errorf("verif_contracts.go:%d: modifies item %q does not parse: %v", cl.Line, item, err)
 		}
 		typeOf := func(e ast.Expr) types.Type {
+			if len(site.extra) > 0 {
+				return probeType(L, root, site, e)
+			}
 			info := &types.Info{Types: map[ast.Expr]types.TypeAndValue{}}
 			if err := types.CheckExpr(root.Fset, root.Types, pos, e, info); err != nil {
 				return nil
@@ -549,13 +681,17 @@ func genModifies(L *Loaded, root *packages.Package, g *genCtx, site *funcSite, f
 			return fmt.Errorf("verif_contracts.go:%d: modifies item %q does not type-check in %s", cl.Line, item, fname)
 		}
 		switch ms.kind {
-		case "ptr", "field":
+		case "ptr", "field", "cb":
 			if _, ok := rt.Underlying().(*types.Pointer); !ok {
 				return fmt.Errorf("verif_contracts.go:%d: modifies item %q is not a pointer (type %s)", cl.Line, item, rt)
 			}
 		case "elems":
 			if _, ok := rt.Underlying().(*types.Slice); !ok {
 				return fmt.Errorf("verif_contracts.go:%d: modifies elems(%s): not a slice", cl.Line, exprText)
+			}
+		case "map":
+			if _, ok := rt.Underlying().(*types.Map); !ok {
+				return fmt.Errorf("verif_contracts.go:%d: modifies map %s: not a map", cl.Line, exprText)
 			}
 		}
 		*n++
